@@ -306,6 +306,12 @@ class ClassParser(BaseParser):
     def make_getter(self, field: ParserField):
         def getter(_obj_self: object):
             if field.attname not in _obj_self.__dict__:
+                # a deferred default is evaluated when the attribute is accessed (as Schema does)
+                deferred_default = field.get_default(
+                    options=getattr(_obj_self, "__options__", None) or self.options, defer=True
+                )
+                if not unprovided(deferred_default):
+                    return deferred_default
                 raise AttributeError(
                     f"{self.name}: {repr(field.attname)} not provided in schema"
                 )
